@@ -129,13 +129,31 @@ def simplify (O : Oracle) (tie : PTerm → Bool) (l : TL) (Γ : Option TL) : Exc
   | some g => simplifyCore O tie (Gen.list_diff l g) g
   | none => simplifyCore O tie l []
 
-/-- `PolyhedralTermList.optimize` -/
+/-- `PolyhedralTermList.optimize`.  Status mapping of the code: 3 → `None`, 0 → the value, 2 → `None` if the
+    constraints are satisfiable (`is_empty()` says no) else `ValueError`; a list without constraints never reaches the
+    solver. -/
 def optimize (O : Oracle) (l : TL) (obj : Lin) (maximize : Bool) : Except Err (Option Rat) :=
-  let c := if maximize then obj else scaleL (-1) obj
-  match O.lp c l with
-  | .unbounded => .ok none
-  | .optimal m _ => .ok (some (if maximize then m else -m))
-  | .infeasible => .error .valueError
-  | .stuck => .error .oracleStuck
+  if l.length = 0 then
+    (if obj.any (fun p => coeffOf p.1 obj != 0) then .ok none else .ok (some 0))
+  else
+    let c := if maximize then obj else scaleL (-1) obj
+    match O.lp c l with
+    | .unbounded => .ok none
+    | .optimal m _ => .ok (some (if maximize then m else -m))
+    | .infeasible =>
+      (match isEmpty O l with
+       | .ok false => .ok none
+       | .ok true => .error .valueError
+       | .error e => .error e)
+    | .stuck => .error .oracleStuck
+
+/-- `PolyhedralIoContract.get_variable_bounds`: maximum first, then minimum; returns (minimum, maximum) -/
+def variableBounds (O : Oracle) (l : TL) (x : Var) : Except Err (Option Rat × Option Rat) :=
+  match optimize O l [(x, 1)] true with
+  | .error e => .error e
+  | .ok hi =>
+    match optimize O l [(x, 1)] false with
+    | .error e => .error e
+    | .ok lo => .ok (lo, hi)
 
 end Poly
